@@ -159,16 +159,24 @@ func factDedupAtomic() int {
 			return true
 		}
 		lock, lookup, insert, unlock := -1, -1, -1, -1
+		between := false // an Unlock/RUnlock statement of this block after the lookup and before the insert
 		for i, st := range blk.List {
 			switch callName(st) {
 			case "requestsLock.Lock":
 				if lock < 0 {
 					lock = i
 				}
-			case "requestsLock.Unlock":
-				if lock >= 0 && unlock < 0 {
+			case "requestsLock.Unlock", "requestsLock.RUnlock":
+				if lock >= 0 && unlock < 0 && callName(st) == "requestsLock.Unlock" {
 					unlock = i
 				}
+				if lookup >= 0 && insert < 0 {
+					between = true
+				}
+			}
+			// `defer requestsLock.Unlock()` right after the Lock: the region extends to the end of the block
+			if ds, ok := st.(*ast.DeferStmt); ok && exprName(ds.Call.Fun) == "requestsLock.Unlock" && lock >= 0 && unlock < 0 {
+				unlock = len(blk.List)
 			}
 			if ifs, ok := st.(*ast.IfStmt); ok && ifs.Init != nil {
 				if as, ok := ifs.Init.(*ast.AssignStmt); ok && len(as.Rhs) == 1 {
@@ -186,7 +194,9 @@ func factDedupAtomic() int {
 		if lookup >= 0 || insert >= 0 {
 			if lock >= 0 && lookup > lock && insert > lookup && unlock > insert {
 				res = 1
-			} else if lookup >= 0 && insert >= 0 {
+			} else if lookup >= 0 && insert >= 0 && between {
+				// the lock is visibly given up between the test and the insert; every other shape (the lock taken
+				// by a caller, another locking idiom) is "unknown": the simultaneous-duplicates scenario decides
 				res = 0
 			}
 		}
